@@ -20,6 +20,7 @@ def mean_pattern(r, k, j):
 class C06(Check):
     pid = 'C06'
     validate = True
+    fork_logging = True       # DEBUG logging on/off is a symbolic input of every path
     anchors = [('src/fast_ticc/main_loop.py', 'fit_stacked_data'),
                ('src/fast_ticc/main_loop.py', '_compute_log_likelihood_by_cluster'),
                ('src/fast_ticc/cluster_label_assignment.py', 'predict_cluster_labels'),
